@@ -11,6 +11,16 @@ CLAIMED = {
    note='Trusted: Coq kernel; extraction + OCaml for the model side of the differential; the Rust harness; HashMap modelled as a finite partial function (keys() observed as a set); predicates/comparators passed to retain/sort_by are pure (no mutation through &mut T); Index/IndexMut (documented to panic like Vec) are outside the property.',
    design='8 C13'),
 }
+CLAIMED['C14'] = dict(
+   technique='Coq proof: per-list permutation/sortedness/idempotence of the canonical sort and of the writer\'s stable sort; extracted-model/implementation differential on API-built modules',
+   text='Proof. sort.rs::sort and the writer\'s ordering (Writer::sort_function + stable sort) are modelled over one MODULE. Proved for every list and start uid: the result is a permutation with untouched content, names ascending, uids consecutive, offsets normalised (C14_list_sorted_permutation); a second sort is the identity (C14_list_sort_idempotent); the writer order is a sorted permutation of the children (C14_writer_order_sorted/_permutation); comparators are total preorders. The whole-module canonical order and idempotence are closed by computation on a populated sample module (C14_sample_canonical) and tied to the code by running model and real A2lFile::sort() on generated modules (all 20 kinds, IF_DATA, USER_RIGHTS, optional blocks, arbitrary uids/lines, new elements) comparing every list and the order of /begin lines; the oracle checks grouping, alphabetical order, reload-equality, same text after reload and second-sort no-op on the real library.',
+   note='Module-level composition (threading of the uid counter through the 20 lists in canonical kind order) is validated by correspondence and one closed example, not by a general theorem (partial). Several modules, comments and A2ML-described IF_DATA are outside the API-built generator. Content is compared by (tag, name) in the model and by PartialEq on the real model.',
+   design='8 C14')
+CLAIMED['C15'] = dict(
+   technique='Coq proof: invariant (sorted placed prefix) + monotone uid doubling, induction over k calls; refutation theorem for the unbounded claim; extracted-model/implementation differential',
+   text='Proof with a recorded known finding. For every list in the shape that loading and every earlier call establish (placed elements in order, new ones behind), one call keeps the placed prefix in order with doubled uids and gives the new elements the uid directly behind the last placed one (C15_placed_prefix_stable); the writer\'s comparison of any two placed elements is unchanged (C15_writer_order_of_placed_unchanged) and a new element sorts directly behind the last placed element of its kind (C15_new_directly_after_last_of_kind); k consecutive calls scale uids by 2^k while they fit in u32 (C15_k_calls_scale_uids). The unbounded statement is refuted: with any placed element 32 calls cannot all succeed (C15_thirty_two_calls_overflow, witness by vm_compute) - that is the known finding uid-doubling-overflow. Tie: model vs A2lFile::sort_new_items on API-built modules incl. uids close to 2^32 and up to 64 consecutive calls; placement oracle on the written text.',
+   note='Guard of the positive theorems: 2*uid+1 < 2^32 for every uid of the module at each call; its failure is the known finding (classified by the same predicate on the observed uids). Release-mode wrap-around is modelled (debug=false) but only the debug build is run in the quick tier. Crate-private comments cannot be created through the API; merge is represented by pushes of uid-0 elements with line>0.',
+   design='8 C15')
 REASON_TODO = 'not yet implemented in this round (model/theorems planned in DESIGN.md section 8); no claim is made'
 
 def main():
